@@ -93,7 +93,11 @@ func IsStreamingPayload(str string) bool {
 	pt := payloadType(str)
 	return pt == payloadTypeStreamingUnsignedTrailer ||
 		pt == payloadTypeStreamingSigned ||
-		pt == payloadTypeStreamingSignedTrailer
+		pt == payloadTypeStreamingSignedTrailer ||
+		// not implemented, but chunk encodings all the same: they have to
+		// reach NewChunkReader to be refused instead of being stored raw
+		pt == payloadTypeStreamingEcdsa ||
+		pt == payloadTypeStreamingEcdsaTrailer
 }
 
 func NewChunkReader(ctx *fiber.Ctx, r io.Reader, authdata AuthData, region, secret string, date time.Time, debug bool) (io.Reader, error) {
@@ -105,6 +109,10 @@ func NewChunkReader(ctx *fiber.Ctx, r io.Reader, authdata AuthData, region, secr
 	if !contentSha256.isValid() {
 		//TODO: Add proper APIError
 		return nil, fmt.Errorf("invalid x-amz-content-sha256: %v", string(contentSha256))
+	}
+
+	if contentSha256 == payloadTypeStreamingEcdsa || contentSha256 == payloadTypeStreamingEcdsaTrailer {
+		return nil, getPayloadTypeNotSupportedErr(contentSha256)
 	}
 
 	checksumType := checksumType(strings.ToLower(ctx.Get("X-Amz-Trailer")))
